@@ -112,3 +112,16 @@
 (declare-fun bnOnCurveG1 ((Array Int Int) (Array Int Int) (Array Int Int)) Bool)
 (declare-fun bnOnTwistG2 ((Array Int Int) (Array Int Int) (Array Int Int) (Array Int Int) (Array Int Int) (Array Int Int)) Bool)
 (declare-fun gfp2zero ((Array Int Int) (Array Int Int)) Bool)
+; ---- sequence shuffle: random linear combination of NQ sequences, column i ----
+; seqComb(...)(n) = e_0*P[0][i] + e_1*P[1][i] + ... + e_{n-1}*P[n-1][i]  (left fold, n >= 1 starts with the e_0 term alone)
+(declare-fun seqComb ((Array Int S) (Array Int G) (Array Int Int) Int (Array Int Slice) Int (Array Int (Array Int Int)) Int Int) G)
+(assert (forall ((sv (Array Int S)) (pv (Array Int G)) (ee (Array Int Int)) (eo Int) (rows (Array Int Slice)) (ro Int) (rh (Array Int (Array Int Int))) (i Int) (n Int))
+  (! (=> (= n 1) (= (seqComb sv pv ee eo rows ro rh i n)
+        (gmul (select sv (select ee eo)) (basept pv (select (select rh (s-arr (select rows ro))) (+ (s-off (select rows ro)) i))))))
+     :pattern ((seqComb sv pv ee eo rows ro rh i n)))))
+(assert (forall ((sv (Array Int S)) (pv (Array Int G)) (ee (Array Int Int)) (eo Int) (rows (Array Int Slice)) (ro Int) (rh (Array Int (Array Int Int))) (i Int) (n Int))
+  (! (=> (> n 1) (= (seqComb sv pv ee eo rows ro rh i n)
+        (gadd (seqComb sv pv ee eo rows ro rh i (- n 1))
+              (gmul (select sv (select ee (+ eo (- n 1))))
+                    (basept pv (select (select rh (s-arr (select rows (+ ro (- n 1))))) (+ (s-off (select rows (+ ro (- n 1)))) i)))))))
+     :pattern ((seqComb sv pv ee eo rows ro rh i n)))))
